@@ -116,6 +116,26 @@ def gen(tier, rng):
         yield build(rng, KINDS[i % len(KINDS)], i)
     for i in range(8 if tier == "quick" else 80):
         yield build(rng, RARE[i % 2], n + i)
+    # the client goes away WITHOUT reading what the server has sent (the kernel then resets the connection): the server's
+    # next read of the streamed body fails with an error, not with end-of-stream; implementation and oracle only
+    for i in range(12 if tier == "quick" else 120):
+        cl = rng.choice([1025, 100000])
+        expect = rng.chance(1, 3)
+        head = ("POST /gone%d HTTP/1.1\r\nHost: h\r\n%sContent-Length: %d\r\n\r\n" % (i, "Expect: 100-continue\r\n" if expect else "", cl)).encode()
+        pre = b"" if rng.chance(1, 2) else ("GET /gp%d HTTP/1.1\r\nHost: h\r\n\r\n" % i).encode()
+        acts = [action_str([], respond_str(200, b"ok", True))] if pre else []
+        acts.append(action_str(rng.choice([[], [(None, 4096)], [(5, 5)]]), rng.choice([respond_str(200, b"ok", True), "D", respond_str(413, b"no", True)])))
+        acts.append(action_str([], respond_str(200, b"never", True)))
+        yield (cv_line(pre + head + b"0123456789", acts, transport="t", extra="c14=1 nomodel=1 fin=unread"), {"kind": "reset-inside-streamed-body"})
+    # HTTP/0.9 on the request line is accepted by the parser and reaches the application: every way of answering it
+    for i, (extra_h, body, act) in enumerate([
+            ("", b"", action_str([], respond_str(200, b"ok", True))), ("", b"", action_str([], "D")),
+            ("Bad Header\r\n", b"", action_str([], respond_str(200, b"ok", True))),
+            ("Expect: 100-continue\r\nContent-Length: 3\r\n", b"abc", action_str([(None, 64)], respond_str(200, b"ok", True))),
+            ("Content-Length: 3\r\n", b"abc", action_str([(None, 64)], "W" + hx(b"HTTP/1.1 299 Raw\r\nContent-Length: 0\r\n\r\n"))),
+            ("TE: chunked\r\n", b"", action_str([], respond_str(200, b"chunked?", False)))]):
+        s = ("GET /v09-%d HTTP/0.9\r\nHost: h\r\n%s\r\n" % (i, extra_h)).encode() + body + b"GET /after HTTP/1.1\r\nHost: h\r\n\r\n"
+        yield cv_line(s, [act, action_str([], respond_str(200, b"after", True))], extra="c14=1"), {"kind": "http-0.9"}
     # very long pipelines (a megabyte of tiny requests): implementation and oracle only
     for ver in (b"2.0", b"3.0", b"1.1"):
         s = (b"GET / HTTP/" + ver + b"\r\n\r\n") * 60000 + b"GET /after HTTP/1.1\r\nHost: h\r\n\r\n"
